@@ -8512,6 +8512,10 @@ pub fn recover_from_frames_and_commits(
     validate_recovery_frame_order(frames)?;
     let mut recovered = Vec::new();
     let mut last_committed_lsn = None;
+    // Commit markers tile the frame run: each committed transaction starts at the first
+    // frame its predecessor left uncovered. A missing, duplicated, or reordered marker
+    // breaks the tiling and must not be recovered as a shorter or reshuffled history.
+    let mut next_uncommitted_lsn = frames.iter().map(|frame| frame.header.lsn).min();
     for commit in commits {
         let tx_frames: Vec<WalFrame> = frames
             .iter()
@@ -8523,6 +8527,10 @@ pub fn recover_from_frames_and_commits(
             .cloned()
             .collect();
         validate_transaction_frames(&tx_frames, commit)?;
+        if next_uncommitted_lsn != Some(commit.first_lsn) {
+            return Err(WalValidationError::LsnContinuityMismatch.into());
+        }
+        next_uncommitted_lsn = commit.last_lsn.checked_next();
         recovered.push(WalRecoveredTransaction {
             commit: commit.clone(),
             frames: tx_frames,
